@@ -15,6 +15,7 @@ from ..core import AnalysisError
 from ..core import RuleResult
 from ..core import norm
 from ..flow import RETURN
+from ..model import ancestors
 from ..model import own_nodes
 from ..taint import BLK
 from ..taint import NS
@@ -334,6 +335,37 @@ def rule_table_decorators(model):
                               'get the result computed for an equal plain '
                               'string, with the taint mark (and the final '
                               'escaping) lost', node=fi.node, ctx=fi)
+    # the same through a re-binding of the name at module level:
+    #     url_unquote = _memoized(url_unquote)
+    names = {}
+    for fid in seen:
+        pass
+    for tname in ('modifiers', 'special_formats'):
+        for key, expr, res in tables.func_entries(model, m, tname):
+            if res and res[0] == 'func' and res[1].cls is None:
+                names[res[1].node.name] = res[1]
+    for st in ast.walk(m.tree):
+        if isinstance(st, (ast.FunctionDef, ast.AsyncFunctionDef,
+                           ast.ClassDef, ast.Lambda)):
+            continue
+        if not isinstance(st, ast.Assign):
+            continue
+        if any(isinstance(a_, (ast.FunctionDef, ast.ClassDef))
+               for a_ in ancestors(st)):
+            continue
+        for t in st.targets:
+            if isinstance(t, ast.Name) and t.id in names and not (
+                    isinstance(st.value, ast.Name) and
+                    st.value.id == t.id):
+                fi = names[t.id]
+                r.instance(fi.where, st, 'NAME RE-BOUND')
+                r.finding(fi.where, st, f'the table function {t.id} is '
+                          f're-bound at module level to `{norm(st.value)}`: '
+                          'the dispatch tables then reach whatever that '
+                          'expression returns, not the function whose body '
+                          'the taint analysis summarises (a memo keyed by '
+                          '==/hash hands the plain result cached for "x" to '
+                          'TaintedString("x"))', node=st, ctx=fi)
     if n < 12:
         raise AnalysisError(f'C04.R4: only {n} table functions resolved')
     return r
